@@ -56,3 +56,32 @@ def spread(seq, n):
     if len(seq) <= n:
         return seq
     return [seq[(i * len(seq)) // n] for i in range(n)]
+
+
+def random_cyclic(rng, n, m, tries=200):
+    """seeded random digraph on n nodes with m edges (self-loops allowed) that has a source, a sink, at least one
+    cycle and every edge on a source-to-sink walk (the documented domain of the cyclic models).  Generation only:
+    nothing here says what a correct answer is."""
+    import networkx as nx
+    names = list("abcdefgh")[:n]
+    for _ in range(tries):
+        G = nx.DiGraph()
+        G.add_nodes_from(names)
+        while G.number_of_edges() < m:
+            u, v = rng.choice(names), rng.choice(names)
+            G.add_edge(u, v)
+        srcs = [v for v in G if G.in_degree(v) == 0]
+        snks = [v for v in G if G.out_degree(v) == 0]
+        if not srcs or not snks or nx.is_directed_acyclic_graph(G):
+            continue
+        from_s = set(srcs)
+        for s in srcs:
+            from_s |= nx.descendants(G, s)
+        to_t = set(snks)
+        for t in snks:
+            to_t |= nx.ancestors(G, t)
+        if all(u in from_s and v in to_t for u, v in G.edges()) and all(G.degree(v) > 0 for v in G):
+            edges = sorted([u, v] for u, v in G.edges())
+            return {"nodes": sorted(G.nodes()), "edges": edges, "ew": [1] * len(edges), "nw": [1] * n,
+                    "proutes": [], "pweights": []}
+    return None
